@@ -9,7 +9,7 @@
    created by the copy or afterwards cannot change the source.
    PARTIAL: the in-place assignment r2 <- r1 (copy_var_data, which writes field by field into the existing record) is
    compared with the implementation on generated record types through every copy channel, not proved. *)
-From PE2 Require Import Heap Eval Lemmas_Copy Lemmas_DeepCopy Lemmas_HeapInv Run Lemmas_ConstLogic Lemmas_ConstThm.
+From PE2 Require Import Heap Eval Lemmas_Copy Lemmas_DeepCopy Lemmas_HeapInv Run Lemmas_ConstLogic Lemmas_ConstThm Lemmas_RecStates.
 Local Open Scope N_scope.
 
 Theorem C07_copy_allocates_fresh_context : forall f tn c s p s',
@@ -75,3 +75,34 @@ Theorem C07_record_values_own_a_record_context : forall ped repl lim fuel bl c s
   rec_ctx (snd (run_block ped repl lim fuel bl c s)) rc /\ dk (c_type cl) = KRec /\ dname (c_type cl) = Some tn.
 Proof. exact record_values_own_a_record_context. Qed.
 Print Assumptions C07_record_values_own_a_record_context.
+
+(* ---- what r.f denotes, for every state and context (the resolution of r being any that does not touch the state): the variable,
+   or the array, named f in the record's own private context -- looked up there and nowhere else (lookup without the global
+   fallback) ---- *)
+Theorem C07_field_resolves_to_the_records_own_variable : forall ped repl lim fuel t r' m c s id cl tn rc fid,
+  ev_resolve (evs_at ped repl lim fuel) r' c s = (Ok (HVar id), s) -> nm_get id (s_cells s) = Some cl ->
+  dk (c_type cl) = KRec -> c_val cl = PRec tn rc -> lookup_var rc (tval m) false s = (Ok (Some fid), s) ->
+  ev_resolve (evs_at ped repl lim (S fuel)) (RField t r' m) c s = (Ok (HVar fid), s).
+Proof. exact field_resolves_to_the_records_own_variable. Qed.
+Print Assumptions C07_field_resolves_to_the_records_own_variable.
+
+Theorem C07_field_resolves_to_the_records_own_array : forall ped repl lim fuel t r' m c s id cl tn rc aid,
+  ev_resolve (evs_at ped repl lim fuel) r' c s = (Ok (HVar id), s) -> nm_get id (s_cells s) = Some cl ->
+  dk (c_type cl) = KRec -> c_val cl = PRec tn rc -> lookup_var rc (tval m) false s = (Ok None, s) -> lookup_arr rc (tval m) false s = (Ok (Some aid), s) ->
+  ev_resolve (evs_at ped repl lim (S fuel)) (RField t r' m) c s = (Ok (HArr aid), s).
+Proof. exact field_resolves_to_the_records_own_array. Qed.
+Print Assumptions C07_field_resolves_to_the_records_own_array.
+
+(* access to a field the record does not have is a runtime error; the whole state is as it was *)
+Theorem C07_undeclared_field_is_an_error : forall ped repl lim fuel t r' m c s id cl tn rc,
+  ev_resolve (evs_at ped repl lim fuel) r' c s = (Ok (HVar id), s) -> nm_get id (s_cells s) = Some cl ->
+  dk (c_type cl) = KRec -> c_val cl = PRec tn rc -> lookup_var rc (tval m) false s = (Ok None, s) -> lookup_arr rc (tval m) false s = (Ok None, s) ->
+  exists f, ev_resolve (evs_at ped repl lim (S fuel)) (RField t r' m) c s = (Fail f, s).
+Proof. exact undeclared_field_is_an_error. Qed.
+Print Assumptions C07_undeclared_field_is_an_error.
+
+Theorem C07_field_of_a_non_record_is_an_error : forall ped repl lim fuel t r' m c s id cl,
+  ev_resolve (evs_at ped repl lim fuel) r' c s = (Ok (HVar id), s) -> nm_get id (s_cells s) = Some cl -> dk (c_type cl) <> KRec ->
+  exists f, ev_resolve (evs_at ped repl lim (S fuel)) (RField t r' m) c s = (Fail f, s).
+Proof. exact field_of_a_non_record_is_an_error. Qed.
+Print Assumptions C07_field_of_a_non_record_is_an_error.
